@@ -21,6 +21,8 @@ pub struct PlanOpts {
     pub plural_decimals: bool,
     /// `dynamic_load` builds: the string / display accessors return futures
     pub async_strings: bool,
+    /// keys with formatters are observed too (typed values, reference strings computed by `vref`)
+    pub formatters: bool,
 }
 
 impl Default for PlanOpts {
@@ -34,6 +36,7 @@ impl Default for PlanOpts {
             exhaustive_small: false,
             plural_decimals: false,
             async_strings: false,
+            formatters: false,
         }
     }
 }
@@ -46,7 +49,200 @@ pub struct Assign {
     pub loop_var: Option<(String, CountKind, Vec<Num>)>,
     /// other count variables, fixed
     pub fixed: BTreeMap<String, (CountKind, Num)>,
+    /// variables that carry a formatter somewhere: typed value
+    pub fvars: BTreeMap<String, FVal>,
 }
+
+/// typed value of a formatted variable (indices into the pools below)
+#[derive(Clone, Debug, PartialEq)]
+pub enum FVal {
+    Num(usize),
+    Date(usize),
+    Time(usize),
+    DateTime(usize, usize),
+    List(usize),
+}
+
+/// (descriptor for the reference, Rust expression producing the value)
+pub const F_NUMS: &[(&str, &str)] = &[
+    ("i:0", "0i64"),
+    ("i:7", "7u8"),
+    ("i:1234", "1234i32"),
+    ("i:-1234567", "-1234567i64"),
+    ("i:18446744073709551615", "u64::MAX"),
+    ("f64:2000.5", "2000.5f64"),
+    ("f64:0.001", "0.001f64"),
+    ("f32:-12.25", "-12.25f32"),
+    ("d:2000.50", "fd(\"2000.50\").clone()"),
+    ("i:1000000", "1000000usize"),
+    ("i:-170141183460469231731687303715884105728", "i128::MIN"),
+    ("i:999", "999u16"),
+];
+pub const F_DATES: &[(i32, u8, u8)] = &[(2024, 2, 29), (1999, 12, 31), (1970, 1, 2), (1, 1, 1), (2023, 7, 4)];
+pub const F_TIMES: &[(u8, u8, u8)] = &[(14, 34, 28), (0, 0, 0), (23, 59, 59), (9, 5, 0), (12, 0, 0)];
+pub const F_LISTS: &[&[&str]] = &[&["A"], &["A", "B"], &["A", "B", "C"], &["x", "y & z", "w", "v"], &["один", "два", "три"]];
+
+impl FVal {
+    /// the value is chosen by the tape, the assignment round and a salt (the variable and the key), so that an
+    /// exhausted tape still spreads the values over the pools
+    pub fn draw(family: &str, round: usize, salt: u64, t: &mut Tape) -> FVal {
+        let round = round * 5 + (salt % 9973) as usize;
+        match family {
+            "number" | "currency" => FVal::Num((round + t.pick(F_NUMS.len())) % F_NUMS.len()),
+            "date" => FVal::Date((round + t.pick(F_DATES.len())) % F_DATES.len()),
+            "time" => FVal::Time((round + t.pick(F_TIMES.len())) % F_TIMES.len()),
+            "datetime" => FVal::DateTime((round + t.pick(F_DATES.len())) % F_DATES.len(), (round + t.pick(F_TIMES.len())) % F_TIMES.len()),
+            _ => FVal::List((round + t.pick(F_LISTS.len())) % F_LISTS.len()),
+        }
+    }
+    /// the value part of a reference descriptor
+    pub fn desc(&self) -> String {
+        match self {
+            FVal::Num(i) => F_NUMS[*i].0.to_string(),
+            FVal::Date(i) => format!("{}-{}-{}", F_DATES[*i].0, F_DATES[*i].1, F_DATES[*i].2),
+            FVal::Time(i) => format!("{}:{}:{}", F_TIMES[*i].0, F_TIMES[*i].1, F_TIMES[*i].2),
+            FVal::DateTime(d, t) => format!("{}-{}-{} {}:{}:{}", F_DATES[*d].0, F_DATES[*d].1, F_DATES[*d].2, F_TIMES[*t].0, F_TIMES[*t].1, F_TIMES[*t].2),
+            FVal::List(i) => F_LISTS[*i].join("\u{1f}"),
+        }
+    }
+    /// Rust expression of the value (helpers of the generated prelude)
+    pub fn rust(&self) -> String {
+        match self {
+            FVal::Num(i) => F_NUMS[*i].1.to_string(),
+            FVal::Date(i) => format!("mkdate({}, {}, {})", F_DATES[*i].0, F_DATES[*i].1, F_DATES[*i].2),
+            FVal::Time(i) => format!("mktime({}, {}, {})", F_TIMES[*i].0, F_TIMES[*i].1, F_TIMES[*i].2),
+            FVal::DateTime(d, t) => format!("mkdt({}, {}, {}, {}, {}, {})", F_DATES[*d].0, F_DATES[*d].1, F_DATES[*d].2, F_TIMES[*t].0, F_TIMES[*t].1, F_TIMES[*t].2),
+            FVal::List(i) => format!("vec![{}]", F_LISTS[*i].iter().map(|x| format!("{:?}", x)).collect::<Vec<_>>().join(", ")),
+        }
+    }
+    pub fn fits(&self, family: &str) -> bool {
+        matches!(
+            (self, family),
+            (FVal::Num(_), "number" | "currency") | (FVal::Date(_), "date") | (FVal::Time(_), "time") | (FVal::DateTime(..), "datetime") | (FVal::List(_), "list")
+        )
+    }
+}
+
+pub const REF_OPEN: char = '\u{E010}';
+pub const REF_CLOSE: char = '\u{E011}';
+
+/// canonical options of a formatter as written (documented defaults for what is omitted)
+pub fn canonical_options(f: &FmtSpec) -> Vec<String> {
+    let get = |name: &str, default: &str| f.args.iter().find(|(k, _)| k == name).map(|(_, v)| v.clone()).unwrap_or_else(|| default.to_string());
+    match f.name.as_str() {
+        "number" => vec![get("grouping_strategy", "auto")],
+        "currency" => vec![get("width", "short"), get("currency_code", "USD")],
+        "date" => vec![get("date_length", "medium")],
+        "time" => vec![get("time_length", "short")],
+        "datetime" => vec![get("date_length", "medium"), get("time_length", "short")],
+        "list" => vec![get("list_type", "unit"), get("list_style", "wide")],
+        _ => vec![],
+    }
+}
+
+fn num_desc(n: Num, kind: &CountKind) -> String {
+    match (n, kind) {
+        (Num::Int(i), _) => format!("i:{i}"),
+        (Num::Float(f), CountKind::Range(RangeTy::F32)) => format!("f32:{:?}", f as f32),
+        (Num::Float(f), CountKind::Range(_)) => format!("f64:{:?}", f),
+        (Num::Float(f), CountKind::Plural) => format!("d:{}", f),
+    }
+}
+
+/// replace every formatted variable by a reference placeholder naming (formatter, options, rendered locale, value)
+pub fn fmt_placeholders(pieces: &[RPiece], a: &Assign, counts: &BTreeMap<String, (Num, CountKind)>, locale: &str) -> Vec<RPiece> {
+    pieces
+        .iter()
+        .map(|x| match x {
+            RPiece::Var { name, fmt: Some(f) } => {
+                let value = match counts.get(name) {
+                    Some((n, kind)) if f.name == "number" || f.name == "currency" => Some(num_desc(*n, kind)),
+                    Some(_) => None,
+                    None => a.fvars.get(name).filter(|v| v.fits(&f.name)).map(|v| v.desc()),
+                };
+                match value {
+                    Some(v) => {
+                        let mut d = vec![f.name.clone()];
+                        d.extend(canonical_options(f));
+                        d.push(locale.to_string());
+                        d.push(v);
+                        RPiece::Text(format!("{}{}{}", REF_OPEN, d.join("|"), REF_CLOSE))
+                    }
+                    None => x.clone(),
+                }
+            }
+            RPiece::Comp { name, children } => RPiece::Comp { name: name.clone(), children: fmt_placeholders(children, a, counts, locale) },
+            RPiece::Range(r) => RPiece::Range(RRange {
+                count_var: r.count_var.clone(),
+                ty: r.ty,
+                branches: r.branches.iter().map(|(s, b)| (s.clone(), fmt_placeholders(b, a, counts, locale))).collect(),
+            }),
+            RPiece::Plural(pl) => RPiece::Plural(RPlural {
+                count_var: pl.count_var.clone(),
+                ordinal: pl.ordinal,
+                forms: pl.forms.iter().map(|(f, b)| (*f, fmt_placeholders(b, a, counts, locale))).collect(),
+            }),
+            other => other.clone(),
+        })
+        .collect()
+}
+
+/// descriptors named by the placeholders of an expected string
+pub fn placeholders_of(s: &str, out: &mut std::collections::BTreeSet<String>) {
+    let mut rest = s;
+    while let Some(i) = rest.find(REF_OPEN) {
+        let after = &rest[i + REF_OPEN.len_utf8()..];
+        match after.find(REF_CLOSE) {
+            Some(j) => {
+                out.insert(after[..j].to_string());
+                rest = &after[j + REF_CLOSE.len_utf8()..];
+            }
+            None => break,
+        }
+    }
+}
+
+/// substitute reference strings for the placeholders
+pub fn substitute_refs(s: &str, refs: &BTreeMap<String, String>) -> Result<String, String> {
+    let mut out = String::with_capacity(s.len());
+    let mut rest = s;
+    while let Some(i) = rest.find(REF_OPEN) {
+        out.push_str(&rest[..i]);
+        let after = &rest[i + REF_OPEN.len_utf8()..];
+        let j = after.find(REF_CLOSE).ok_or("unterminated placeholder")?;
+        let d = &after[..j];
+        match refs.get(d) {
+            Some(r) => out.push_str(r),
+            None => return Err(format!("no reference for {d:?}")),
+        }
+        rest = &after[j + REF_CLOSE.len_utf8()..];
+    }
+    out.push_str(rest);
+    Ok(out)
+}
+
+/// formatter family of every variable that is formatted somewhere in the key
+pub fn formatted_vars(k: &KeyPlan) -> BTreeMap<String, String> {
+    fn walk(p: &[RPiece], out: &mut BTreeMap<String, String>) {
+        for x in p {
+            match x {
+                RPiece::Var { name, fmt: Some(f) } => {
+                    out.entry(name.clone()).or_insert_with(|| f.name.clone());
+                }
+                RPiece::Comp { children, .. } => walk(children, out),
+                RPiece::Range(r) => r.branches.iter().for_each(|(_, b)| walk(b, out)),
+                RPiece::Plural(pl) => pl.forms.values().for_each(|b| walk(b, out)),
+                _ => {}
+            }
+        }
+    }
+    let mut out = BTreeMap::new();
+    for (_, r) in &k.per_locale {
+        walk(r, &mut out);
+    }
+    out
+}
+
 
 #[derive(Clone, Debug)]
 pub struct KeyPlan {
@@ -271,10 +467,16 @@ fn make_assigns(k: &KeyPlan, opts: &PlanOpts, t: &mut Tape) -> Vec<Assign> {
     let mut out = vec![];
     let count_vars: Vec<(String, CountKind)> = k.sig.counts.iter().filter_map(|(v, kinds)| kinds.iter().next().cloned().map(|c| (v.clone(), c))).collect();
     let n_assign = if k.sig.is_empty() { 1 } else { opts.assignments.max(1) };
+    let fams = if opts.formatters { formatted_vars(k) } else { BTreeMap::new() };
     for round in 0..n_assign {
         let mut vars = BTreeMap::new();
+        let mut fvars = BTreeMap::new();
         for v in &k.sig.vars {
             if k.sig.counts.contains_key(v) {
+                continue;
+            }
+            if let Some(family) = fams.get(v) {
+                fvars.insert(v.clone(), FVal::draw(family, round, fnv1a(v.as_bytes()) ^ k.hash, t));
                 continue;
             }
             let val = match (round + t.pick(3)) % 3 {
@@ -331,7 +533,7 @@ fn make_assigns(k: &KeyPlan, opts: &PlanOpts, t: &mut Tape) -> Vec<Assign> {
                 fixed.insert(v.clone(), (kind.clone(), n));
             }
         }
-        out.push(Assign { vars, loop_var, fixed });
+        out.push(Assign { vars, loop_var, fixed, fvars });
     }
     out
 }
@@ -409,11 +611,19 @@ pub fn expected(p: &Project, k: &KeyPlan, li: usize, a: &Assign, ci: usize, view
         args.vars.insert(v.clone(), count_display(*n, kind));
     }
     let loc = &p.locales[li];
+    let mut counts: BTreeMap<String, (Num, CountKind)> = BTreeMap::new();
+    if let Some((v, kind, probes)) = &a.loop_var {
+        counts.insert(v.clone(), (probes[ci], kind.clone()));
+    }
+    for (v, (kind, n)) in &a.fixed {
+        counts.insert(v.clone(), (*n, kind.clone()));
+    }
+    let pieces = if k.has_formatter { fmt_placeholders(&k.per_locale[li].1, a, &counts, loc) } else { k.per_locale[li].1.clone() };
     if view {
         let mut out = String::new();
-        render_view_string(&k.per_locale[li].1, &args, loc, &mut out)?;
+        render_view_string(&pieces, &args, loc, &mut out)?;
         return Ok(out);
     }
-    let tree = render(&k.per_locale[li].1, &args, loc)?;
+    let tree = render(&pieces, &args, loc)?;
     Ok(tree_to_string(&tree))
 }
